@@ -434,3 +434,119 @@ def layer_search(job):
     except Exception as e:
         rec["circ"] = 0
     return rec
+
+
+# ---------------------------------------------------------------------------------------------
+# tomography
+# ---------------------------------------------------------------------------------------------
+class FakeResult:
+    """duck-typed qiskit Result: the fitters only call get_counts()"""
+
+    def __init__(self, counts):
+        self._counts = counts
+
+    def get_counts(self, *a, **k):
+        return self._counts
+
+
+def _tomo_build(job, k):
+    lib = L()
+    N, lst, conn = job["N"], job["list"], job["conn"]
+    prep = impl.circuit_from_gates(N, job["comps"][k][1])
+    if job["kind"] == "full":
+        return lib.tomography.full_state_tomography_circuits(prep, conn, lst)
+    st = stab_from_codes(job["m"], job["meas"], "matrices")
+    return [lib.tomography.stabilizer_measurement_circuit(prep, st, conn, lst)]
+
+
+def tomo_phase_a(job):
+    """-> {"circuits": [[gates of circuit i of component k for k] for i], "exc"}"""
+    out = {"circuits": [], "exc": ""}
+    try:
+        per_comp = []
+        for k in range(len(job["comps"])):
+            per_comp.append([impl.split_measure(impl.gates_of(qc))[0] for qc in _tomo_build(job, k)])
+        ncirc = len(per_comp[0])
+        out["circuits"] = [[per_comp[k][i] for k in range(len(per_comp))] for i in range(ncirc)]
+    except Exception as e:
+        out["exc"] = exc_name(e) + ": " + str(e)[:150]
+    return out
+
+
+def _entries(ev):
+    from fractions import Fraction
+    ents = []
+    for p, v in ev.items():
+        code, phase = impl.qiskit_pauli_code(p)
+        fr = Fraction(float(v)).limit_denominator(1 << 20)
+        ents.append([code % impl.W, (code // impl.W) % impl.W, phase, fr.numerator, fr.denominator])
+    return ents
+
+
+def tomo_phase_b(job):
+    """job additionally has "counts": [dict per circuit] (exact statistics computed by the spec).
+    -> {"values": entries of the family fitter, "per_circuit": [entries of circuit i], "ro": [...], "dm_ok", "exc"}"""
+    import numpy as np
+    lib = L()
+    T = lib.tomography
+    out = {"values": [], "per_circuit": [], "ro": [], "dm_ok": 1, "exc": ""}
+    try:
+        circs = _tomo_build(job, 0)
+        counts = job["counts"]
+        full = bool(job["full"])
+        res = FakeResult(counts if len(counts) > 1 else counts[0])
+        if job["kind"] == "full":
+            fitter = T.FullStateTomographyFitter(res, circs)
+        else:
+            fitter = T.StabilizerMeasurementFitter(res, circs[0])
+        ev = fitter.expectation_values(full_hilbert_space=full)
+        out["values"] = _entries(ev)
+        for i, qc in enumerate(circs):
+            f = T.StabilizerMeasurementFitter(FakeResult(counts), qc, result_index=i) if len(counts) > 1 else T.StabilizerMeasurementFitter(FakeResult(counts[0]), qc)
+            out["per_circuit"].append(_entries(f.expectation_values(full_hilbert_space=full)))
+            out["ro"].append(impl.gates_of(qc.metadata["readout info"].circuit))
+        # the only floating point step: rho = 2^-n sum <P> P (cross-checked numerically, outside the spec)
+        if job.get("dm") and (job["N"] if full else job["m"]) <= 5:
+            rho = fitter.density_matrix(full_hilbert_space=full)
+            ref = np.zeros_like(rho)
+            for p, v in ev.items():
+                ref += p.to_matrix() * v
+            ref /= rho.shape[0]
+            ok = np.allclose(rho, ref, atol=1e-12) and np.allclose(rho, rho.conj().T, atol=1e-12) and abs(np.trace(rho) - 1) < 1e-12
+            out["dm_ok"] = 1 if ok else 0
+    except Exception as e:
+        out["exc"] = exc_name(e) + ": " + str(e)[:150]
+    return out
+
+
+def fitter_counts(job):
+    """StabilizerMeasurementFitter on an arbitrary count dictionary.
+    job: {"N","m","list","conn","index","kind","meas","counts": {str: int}, "full"} -> `fitter` record"""
+    lib = L()
+    T = lib.tomography
+    rec = {"op": "fitter", "N": job["N"], "m": job["m"], "list": job["list"] if job["list"] is not None else list(range(job["N"])),
+           "full": 1 if job["full"] else 0, "counts": [[list(k), int(v)] for k, v in job["counts"].items()], "ro": [], "values": [], "exc": ""}
+    try:
+        j = dict(job, comps=[[1, job.get("prep", [])]])
+        circs = _tomo_build(j, 0)
+        qc = circs[job["index"] % len(circs)]
+        f = T.StabilizerMeasurementFitter(FakeResult(dict(job["counts"])), qc)
+        rec["values"] = _entries(f.expectation_values(full_hilbert_space=bool(job["full"])))
+        rec["ro"] = impl.gates_of(qc.metadata["readout info"].circuit)
+    except Exception as e:
+        rec["exc"] = exc_name(e) + ": " + str(e)[:150]
+    return rec
+
+
+def marginal(job):
+    """CircuitResult(counts, qubits) -> `marginal` record"""
+    lib = L()
+    counts, lst, N = job
+    rec = {"op": "marginal", "N": N, "haslist": 0 if lst is None else 1, "list": lst or [], "counts": [[list(k), int(v)] for k, v in counts.items()], "stored": [], "nq": -1, "exc": ""}
+    try:
+        cr = lib.tomography.CircuitResult(dict(counts), lst)
+        rec["stored"] = [[int(r.bitstring), int(r.count)] for r in cr.results]
+        rec["nq"] = int(cr.num_qubits)
+    except Exception as e:
+        rec["exc"] = exc_name(e) + ": " + str(e)[:150]
+    return rec
